@@ -164,6 +164,9 @@ struct tap { int obj; int side; struct cmb_condition *cv; int pid; };
 static struct tap taps[32];
 static int ntaps;
 static bool in_teardown;
+/* "trusting 1": release / prel go by what the process itself was told (SUCCESS and no PREEMPTED since),
+ * as a user program does, without first asking the library whether it still holds the thing */
+static bool trusting;
 
 static void tr(const char *fmt, ...) __attribute__((format(printf, 1, 2)));
 static void tr(const char *fmt, ...)
@@ -527,7 +530,7 @@ static bool do_nonblocking(const struct sop *o, const int pid, const int opi, co
         struct cmb_resource *r = objs[o->obj].ptr;
         const bool lib = cmb_resource_held_by_process(r, me->p) != 0u;
         if (!me->mine_res[o->obj]) SKIP(lib ? "library-says-held-but-never-acquired" : "not-held");
-        if (!lib) { me->mine_res[o->obj] = false; SKIP("lost-without-notice"); }
+        if (!lib && !trusting) { me->mine_res[o->obj] = false; SKIP("lost-without-notice"); }
         CALLHDR(); tr(" %s\n", objs[o->obj].name);
         cmb_resource_release(r);
         me->mine_res[o->obj] = false;
@@ -540,7 +543,7 @@ static bool do_nonblocking(const struct sop *o, const int pid, const int opi, co
         const uint64_t lib = cmb_resourcepool_held_by_process(pl, me->p);
         uint64_t n = o->u1;
         if (me->mine_pool[o->obj] == 0u) SKIP(lib ? "library-says-held-but-never-acquired" : "not-held");
-        if (lib < me->mine_pool[o->obj]) { me->mine_pool[o->obj] = lib; SKIP("lost-without-notice"); }
+        if (lib < me->mine_pool[o->obj] && !trusting) { me->mine_pool[o->obj] = lib; SKIP("lost-without-notice"); }
         if (n > me->mine_pool[o->obj]) n = me->mine_pool[o->obj];
         if (n == 0u) SKIP("zero-amount");
         CALLHDR(); tr(" %s %" PRIu64 "\n", objs[o->obj].name, n);
@@ -1121,6 +1124,7 @@ static int parse_case(char *text)
         if (nt == 0) continue;
         if (strcmp(tok[0], "start") == 0 && nt >= 2) { start_time = cimx_dbl(tok[1]); continue; }
         if (strcmp(tok[0], "seed") == 0) continue;
+        if (strcmp(tok[0], "trusting") == 0 && nt >= 2) { trusting = cimx_i64(tok[1]) != 0; continue; }
         static const char *const kinds[] = { "res", "pool", "buf", "oq", "pq", "cond" };
         int kind = -1;
         for (int k = 0; k < 6; k++) if (strcmp(tok[0], kinds[k]) == 0) kind = k;
